@@ -214,6 +214,9 @@ func (r *rw) rewriteSelect(s *ast.SelectStmt, label *ast.Ident) ast.Stmt {
 	hd := "false"
 	if hasDef {
 		hd = "true"
+	} else {
+		// keeps a terminating select a terminating statement
+		sw.Body.List = append(sw.Body.List, &ast.CaseClause{List: nil, Body: []ast.Stmt{&ast.ExprStmt{X: call(ast.NewIdent("panic"), &ast.BasicLit{Kind: token.STRING, Value: `"vsched: select returned no case"`})}}})
 	}
 	sw.Tag = call(r.vs("Select"), append([]ast.Expr{ast.NewIdent(hd)}, cases...)...)
 	var swStmt ast.Stmt = sw
